@@ -4875,6 +4875,20 @@ impl GlobalInferenceCtx<'_> {
                                     latest_discrim = discriminant + 1;
                                 }
 
+                                // the tag of an enum is a single byte.
+                                // hand-written discriminants have already been checked against `u8`
+                                if discriminant > u8::MAX as u64 {
+                                    self.diagnostics.push(TyDiagnostic {
+                                        kind: TyDiagnosticKind::DiscriminantTooBig {
+                                            value: discriminant,
+                                        },
+                                        file: self.loc.file(),
+                                        range: name.range,
+                                        expr: Some(expr),
+                                        help: None,
+                                    });
+                                }
+
                                 variant_tys.push(
                                     Ty::EnumVariant {
                                         enum_uid: *enum_uid,
